@@ -126,6 +126,56 @@ class Hist:
             return self.seq
 
 
+class Stretch:
+    """sys.monitoring LINE callback on cloudsync/runnable.py: with probability q the executing thread pauses for a few
+    hundred microseconds at a statement boundary.  CPython may preempt a thread at any such boundary, so this only makes
+    rare interleavings (a stop() caught between two of its assignments, a loop caught between its two flag tests)
+    frequent; it cannot create an impossible one."""
+    TOOL = 3
+
+    def __init__(self, q, seed):
+        self.q, self.rng = q, random.Random(seed)
+        self.lines = self.pauses = 0
+        self.on = False
+
+    def __enter__(self):
+        import sys
+        mon = getattr(sys, "monitoring", None)
+        if mon is None:
+            return self
+        try:
+            mon.use_tool_id(self.TOOL, "verif-stretch")
+        except ValueError:
+            pass
+        target = _load.REPO + "/cloudsync/runnable.py"
+
+        def cb(code, line):
+            if code.co_filename != target:
+                return mon.DISABLE
+            self.lines += 1
+            if self.rng.random() < self.q:
+                self.pauses += 1
+                time.sleep(self.rng.choice((0, 0.0001, 0.0004)))
+            return None
+        mon.register_callback(self.TOOL, mon.events.LINE, cb)
+        mon.set_events(self.TOOL, mon.events.LINE)
+        self.on = True
+        return self
+
+    def __exit__(self, *a):
+        import sys
+        mon = getattr(sys, "monitoring", None)
+        if mon is None or not self.on:
+            return
+        mon.set_events(self.TOOL, 0)
+        mon.register_callback(self.TOOL, mon.events.LINE, None)
+        try:
+            mon.free_tool_id(self.TOOL)
+        except Exception:       # noqa
+            pass
+        self.on = False
+
+
 def race(rng, kind):
     """one start/stop race; returns (problems, phase_hit)"""
     import cloudsync.runnable as RM
@@ -170,7 +220,16 @@ def race(rng, kind):
             s.stop, s.wait = stop, wait
             s.start(sleep=rng.choice((0.0005, 0.002)))
         time.sleep(rng.random() * 0.004)
-        RM.Runnable.stop_all(svcs, forever=True, wait=True)
+        try:
+            RM.Runnable.stop_all(svcs, forever=True, wait=True)
+        except Exception as e:          # noqa
+            probs.append(("stop_all_raised", repr(e)))
+            for s in svcs:
+                try:
+                    RM.Runnable.stop(s, forever=True, wait=False)
+                except Exception:       # noqa
+                    pass
+            return probs, "stop_all"
         mark = h.add("returned")
         time.sleep(0.003)
         first_wait = min([i for i, o in enumerate(order) if o[0] == "wait"] or [len(order)])
@@ -188,13 +247,44 @@ def race(rng, kind):
     forever = kind in ("final_wait", "final_nowait")
     waiting = kind in ("final_wait", "nonfinal_wait")
     s.start(sleep=rng.choice((0.0002, 0.001, 0.003)))
-    time.sleep(rng.random() * 0.004)
+    # half of the races act at once (the service thread may not even have entered its loop yet)
+    if rng.random() < 0.5:
+        time.sleep(rng.random() * 0.004)
     if rng.random() < 0.3:
         s.wake()
     hit = phase[0]
-    s.stop(forever=forever, wait=waiting)
-    if not waiting:
-        s.wait()
+    # the stop is always *signalled* without waiting first, so that a loop that ignores it is observed by counting
+    # work calls (bounded progress: the loop must end within 300 further calls) instead of hanging the harness
+    n_at_stop = len(h.ev)
+    try:
+        s.stop(forever=forever, wait=False)
+    except Exception as e:              # noqa
+        probs.append(("stop_raised", kind, repr(e)))
+        return probs, hit
+    t0 = time.time()
+    ignored = False
+    while True:
+        try:
+            s.wait(timeout=0.02)
+            break
+        except TimeoutError:
+            calls_since = len([e for e in h.ev[n_at_stop:] if e[1] == "do"])
+            if calls_since > 300:
+                ignored = True
+                break
+            if time.time() - t0 > 10:
+                probs.append(("INCONCLUSIVE service thread still alive 10 s after stop with %d calls since" % calls_since,))
+                break
+    if ignored:
+        probs.append(("stop_request_ignored_work_function_keeps_running", kind, "phase at stop: %s" % hit))
+        s.stop(forever=True, wait=False)
+        try:
+            s.wait(timeout=5)
+        except TimeoutError:
+            pass
+        return probs, hit
+    if waiting:
+        s.stop(forever=forever, wait=True)      # the waiting form must return at once on an already stopped service
     mark = h.add("returned")
     time.sleep(0.002)
     late = [e for e in h.ev if e[0] > mark and e[1] == "do"]
@@ -416,7 +506,14 @@ def shard(ctx, acc):
     for j in range(ctx.shard, plan["races"], ctx.nshards):
         rng = random.Random("%s:c18r:%d" % (ctx.seed, j))
         kind = kinds[(j // ctx.nshards) % len(kinds)]
-        probs, hit = race(rng, kind)
+        if rng.random() < 0.5:
+            with Stretch(0.15, rng.getrandbits(32)) as st:
+                probs, hit = race(rng, kind)
+            acc.count("races_stretched")
+            acc.count("stretch_lines_seen", st.lines)
+            acc.count("stretch_pauses", st.pauses)
+        else:
+            probs, hit = race(rng, kind)
         acc.evaluations += 1
         acc.count("races")
         acc.add("phases_hit", "%s@%s" % (kind, hit))
